@@ -17,6 +17,8 @@ import (
 
 const snapshotOffset uint64 = 5000
 
+const proposeConfChangeTimeout time.Duration = 5 * time.Second
+
 var (
 	ProcessFnAlreadyRegisteredErr  error = errors.New("ProcessFn already registered")
 	SnapshotFnAlreadyRegisteredErr error = errors.New("SnapshotFn already registered")
@@ -196,7 +198,10 @@ func (this *RaftGroup) ProposeJoin(nodeId uint64, address string) error {
 	cc.NodeID = nodeId
 	cc.Context = []byte(address)
 
-	return this.raft.ProposeConfChange(this.ctx, cc)
+	// Proposing blocks while the group has no leader
+	ctx, cancelCtx := context.WithTimeout(this.ctx, proposeConfChangeTimeout)
+	defer cancelCtx()
+	return this.raft.ProposeConfChange(ctx, cc)
 }
 
 func (this *RaftGroup) ProposeLeave(nodeId uint64) error {
@@ -204,7 +209,9 @@ func (this *RaftGroup) ProposeLeave(nodeId uint64) error {
 	cc.Type = raftpb.ConfChangeRemoveNode
 	cc.NodeID = nodeId
 
-	return this.raft.ProposeConfChange(this.ctx, cc)
+	ctx, cancelCtx := context.WithTimeout(this.ctx, proposeConfChangeTimeout)
+	defer cancelCtx()
+	return this.raft.ProposeConfChange(ctx, cc)
 }
 
 func (this *RaftGroup) run() {
